@@ -6,7 +6,7 @@
 // BOOL_OR / STRING_AGG over the non-NULL values (NULL if none), ARRAY_AGG the values in arrival order, an arithmetic wrapper
 // applied to the aggregate's value, HAVING on the group's own key and aggregates.
 // Grid: every sequence of up to 3 rows and a sample of those of 4 and 5 over a 7-row pool (NULL keys, NULL arguments, a group
-// whose argument is NULL on every row, TEXT arguments) x 9 statement shapes.  Every statement has COUNT(*): the groups of
+// whose argument is NULL on every row, TEXT arguments) x 12 statement shapes (HAVING over aggregates that are and are not in the select list, in either order).  Every statement has COUNT(*): the groups of
 // the two known findings (no cell at all) do not occur here.
 include!("verif_grid_common.rs");
 include!("verif_grid_qcommon.rs");
@@ -56,6 +56,9 @@ fn expected(shape: usize, rows: &[Row]) -> Vec<J> {
                 // (the argument `v > 0` is false, not NULL, on a row whose v is NULL: a comparison with NULL is false)
                 json!({"k": jopt(k), "n": g.len(), "every": json!(g.iter().all(|r| r.1.map(|x| x > 0).unwrap_or(false))), "some": json!(g.iter().any(|r| r.1.map(|x| x > 1).unwrap_or(false))),
                        "p0": jopt(v.iter().min().cloned()), "p1": jopt(v.iter().max().cloned())}) }).collect(),
+        9 => groups(rows, |r| r.0).into_iter().filter(|(_, g)| g.len() > 1 && vs(g).into_iter().max().map(|m| m > 1).unwrap_or(false)).map(|(k, g)| json!({"k": jopt(k), "n": g.len()})).collect(),
+        10 => groups(rows, |r| r.0).into_iter().filter(|(_, g)| vs(g).into_iter().max().map(|m| m > 1).unwrap_or(false) && g.len() > 1).map(|(k, g)| json!({"k": jopt(k), "n": g.len(), "lo": jopt(vs(&g).into_iter().min())})).collect(),
+        11 => groups(rows, |r| r.0).into_iter().filter(|(_, g)| vs(g).len() >= 1 && vs(g).iter().sum::<i64>() < 3 && ss(g).len() <= 1).map(|(k, g)| json!({"k": jopt(k), "su": sum(&g)})).collect(),
         8 => { let passed: Vec<Row> = rows.iter().cloned().filter(|r| r.1.is_some()).collect();
                groups(&passed, |r| r.0).into_iter().map(|(k, g)| json!({"k": jopt(k), "n": g.len(), "vs": J::Array(g.iter().map(|r| jopt(r.1)).collect())})).collect() },
         _ => groups(rows, |r| r.1).into_iter().map(|(v, g)| json!({"v": jopt(v), "n": g.len(), "first": jopt(g.iter().filter_map(|r| r.0).min()), "keys": distinct_keys(&g)})).collect(),
@@ -63,7 +66,7 @@ fn expected(shape: usize, rows: &[Row]) -> Vec<J> {
 }
 fn distinct_keys(g: &[Row]) -> usize { let mut k: Vec<&str> = g.iter().filter_map(|r| r.0).collect(); k.sort(); k.dedup(); k.len() }
 
-const STATEMENTS: [&str; 9] = [
+const STATEMENTS: [&str; 12] = [
     "SELECT k, COUNT(*) AS n, COUNT(v) AS c, COUNT(DISTINCT v) AS d, SUM(v) AS su, MIN(v) AS lo, MAX(v) AS hi FROM t GROUP BY k",
     "SELECT k, COUNT(*) AS n, AVG(v) AS a, MIN(s) AS smin, MAX(s) AS smax, STRING_AGG(s, '+') AS joined FROM t GROUP BY k",
     "SELECT COUNT(*) AS n, SUM(v) AS su, MAX(v) + 1 AS top FROM t",
@@ -73,6 +76,9 @@ const STATEMENTS: [&str; 9] = [
     "SELECT k, COUNT(*) AS n, BOOL_AND(v > 0) AS every, BOOL_OR(v > 1) AS some, PERCENTILE(v, 0.0) AS p0, PERCENTILE(v, 1.0) AS p1 FROM t GROUP BY k",
     "SELECT v, COUNT(*) AS n, MIN(k) AS first, COUNT(DISTINCT k) AS keys FROM t GROUP BY v",
     "SELECT k, COUNT(*) AS n, ARRAY_AGG(v) AS vs FROM t WHERE v IS NOT NULL GROUP BY k",
+    "SELECT k, COUNT(*) AS n FROM t GROUP BY k HAVING COUNT(*) > 1 AND MAX(v) > 1",
+    "SELECT k, COUNT(*) AS n, MIN(v) AS lo FROM t GROUP BY k HAVING MAX(v) > 1 AND COUNT(*) > 1",
+    "SELECT k, SUM(v) AS su FROM t GROUP BY k HAVING COUNT(v) >= 1 AND SUM(v) < 3 AND COUNT(s) <= 1",
 ];
 
 #[test]
